@@ -434,4 +434,54 @@ def pushAmount (cut : Cut) (sq : K) (d : V3 K) : K := sq - d.get (cutIndex cut)
 
 end
 
+
+/-! ### relational form of the routine (used where float ties make the coded choice unpredictable)
+
+`validBasis` accepts a triple `(a, b, c)` iff it is *a* possible outcome of the two searches up to
+a relative tolerance on the compared quantities: `a` in plane and (nearly) shortest, `c` the gcd
+reduction of a candidate on the normal's side with (nearly) the largest cosine, `b` passing the
+second filter relative to `a` and (nearly) shortest.  The filters are the same predicates
+(`inPlane`, `towardNormal`, `bFilter`) the theorems are about. -/
+namespace Rel
+
+def inRange (n : Int) (v : IV) : Bool :=
+  decide (v.x.natAbs ≤ n.toNat) && decide (v.y.natAbs ≤ n.toNat) && decide (v.z.natAbs ≤ n.toNat) &&
+    !(v.x == 0 && v.y == 0 && v.z == 0)
+
+def unorder (cut : Cut) (m : M3 Int) : IV × IV × IV :=
+  match cut with
+  | .c => (m.r0, m.r1, m.r2)
+  | .b => (m.r2, m.r0, m.r1)
+  | .a => (m.r1, m.r2, m.r0)
+
+def validBasis (vects : M3 Rat) (hkl : IV) (L : M3 Int) (cut : Cut) (nOpt : Option Int)
+    (uvws : M3 Int) (tol : Rat) : String :=
+  match initVectors hkl with
+  | none => "0 hkl-zero"
+  | some ini =>
+    let a0 := M3.vecMul ini.a0 L
+    let b0 := M3.vecMul ini.b0 L
+    let n := match nOpt with | some n => n | none => defaultMaxIndex a0 b0 hkl
+    let pn := planeNormal vects ini.s a0 b0
+    let (a, b, c) := unorder cut uvws
+    let cands := genVectors n
+    let m2 := fun v => V3.normSq (cart vects v)
+    let dn := fun v => V3.dot (cart vects v) pn
+    let bound := m2 ⟨n, n, n⟩
+    if !(inRange n a && decide (inPlane vects pn a)) then "0 a-not-a-candidate-in-plane"
+    else if !(decide (m2 a < bound)) then "0 a-not-below-initial-bound"
+    else if cands.any (fun v => decide (inPlane vects pn v) && decide (m2 v * (1 + tol) < m2 a)) then "0 a-not-shortest"
+    else if gcd3 c ≠ 1 then "0 c-not-reduced"
+    else if !(cands.any (fun v => decide (towardNormal vects pn v) && reduceGcd v == c)) then "0 c-not-from-candidate"
+    else if cands.any (fun v => decide (towardNormal vects pn v) &&
+        decide (dn c * dn c * m2 v < dn v * dn v * m2 c * (1 - tol))) then "0 c-not-closest-to-normal"
+    else
+      let aC := cart vects a
+      if !(inRange n b && decide (bFilter vects pn aC b)) then "0 b-fails-filter"
+      else if !(decide (m2 b < bound * (1 + tol))) then "0 b-not-below-initial-bound"
+      else if cands.any (fun v => decide (bFilter vects pn aC v) && decide (m2 v * (1 + tol) < m2 b)) then "0 b-not-shortest"
+      else "1"
+
+end Rel
+
 end Atomman.C14
